@@ -141,13 +141,18 @@ class CheckReturns(FuncRule):
 
     def _check(self, func: Func, contract: Contract) -> Iterator[Error]:
         for token in get_returns(body=func.body, generator=is_generator(func.body)):
+            try:
+                value = str(token.value)
+            except ValueError:
+                # an integer with too many digits to be rendered
+                continue
             error = self._validate(
                 contract=contract,
                 args=(token.value,),
                 kwargs={},
                 row=token.line,
                 col=token.col,
-                value=str(token.value),
+                value=value,
             )
             if error is not None:
                 yield error
@@ -276,10 +281,15 @@ class CheckAsserts(FuncRule):
         if func.name.startswith('test_'):
             return
         for token in get_asserts(body=func.body):
+            try:
+                value = str(token.value)
+            except ValueError:
+                # an integer with too many digits to be rendered
+                continue
             yield Error(
                 code=self.code,
                 text=self.message,
-                value=str(token.value),
+                value=value,
                 row=token.line,
                 col=token.col,
             )
